@@ -73,6 +73,38 @@ pub fn commute_ring<S: Src>(s: &mut S, n: i8, k: u8) {
     core::mem::forget(r2);
 }
 
+/// in-place forms agree with the by-value forms on line strings of every small length (a line string
+/// with ONE coordinate counts as closed, an empty one has nothing to map)
+pub fn mut_vs_value_linestring<S: Src>(s: &mut S, len: usize) {
+    use geo::Translate;
+    let (m, _) = exact_map(s, 6);
+    let all = [gp(s, 2), gp(s, 2), gp(s, 2)];
+    let ls = ls_i(&all[..len]);
+    let by_value: LineString<I> = ls.affine_transform(&m);
+    let mut in_place = ls.clone();
+    in_place.affine_transform_mut(&m);
+    assert!(in_place == by_value, "affine_transform_mut disagrees with affine_transform on a short line string");
+    assert!(by_value.0.len() == len, "affine_transform changed the number of coordinates");
+    let mut i = 0;
+    while i < len {
+        assert!(by_value.0[i] == m.apply(ci(all[i])), "affine_transform is not the coordinate-wise application");
+        i += 1;
+    }
+    let (dx, dy) = (s.grid(2) as I, s.grid(2) as I);
+    let mut t = ls.clone();
+    t.translate_mut(dx, dy);
+    assert!(t == ls.translate(dx, dy), "translate_mut disagrees with translate on a short line string");
+    i = 0;
+    while i < len {
+        assert!(t.0[i] == ci((all[i].0 + dx, all[i].1 + dy)), "translate is not the coordinate-wise shift");
+        i += 1;
+    }
+    core::mem::forget(ls);
+    core::mem::forget(by_value);
+    core::mem::forget(in_place);
+    core::mem::forget(t);
+}
+
 /// compose_many folds left to right
 pub fn compose_many<S: Src>(s: &mut S) {
     let e = |s: &mut S| s.grid(2) as I;
@@ -98,6 +130,10 @@ harnesses! {
     #[kani::unwind(7)] fn c13_commute_ring_quarter_turn(s) { commute_ring(s, 2, 4) }
     #[kani::unwind(7)] fn c13_commute_ring_scale2(s) { commute_ring(s, 2, 5) }
     #[kani::unwind(5)] fn c13_compose_many(s) { compose_many(s) }
+    #[kani::unwind(5)] fn c13_mut_ls_0(s) { mut_vs_value_linestring(s, 0) }
+    #[kani::unwind(5)] fn c13_mut_ls_1(s) { mut_vs_value_linestring(s, 1) }
+    #[kani::unwind(5)] fn c13_mut_ls_2(s) { mut_vs_value_linestring(s, 2) }
+    #[kani::unwind(5)] fn c13_mut_ls_3(s) { mut_vs_value_linestring(s, 3) }
     #[kani::unwind(6)] fn c13_sanity_must_fail(s) {
         commute_predicates(s, 1, 4);
         assert!(false, "sanity twin reached its end");
